@@ -627,108 +627,6 @@ fn scan_order(store: &RdfStore) -> String {
     if v.is_empty() { "-".into() } else { v.join(",") }
 }
 
-// ------------------------------------------------------------------ the translator's plan, mirrored
-// (only to keep the generator inside the domain the row-wise Lean model covers: a UNION whose
-// branches have different numbers of columns is modelled at the top of the WHERE clause only)
-
-#[derive(Clone, Debug)]
-enum Plan {
-    Unit,
-    Scan(TP),
-    Join(Box<Plan>, Box<Plan>),
-    LeftJoin(Box<Plan>, Box<Plan>),
-    Union(Box<Plan>, Box<Plan>),
-    Filter(Box<Plan>),
-}
-
-fn unwrap_g(g: &[Elem]) -> Vec<Elem> {
-    let mut out = vec![];
-    for e in g {
-        match e {
-            Elem::Triples(ts) => out.push(Elem::Triples(ts.clone())),
-            Elem::Optional(g) => out.push(Elem::Optional(unwrap_g(g))),
-            Elem::Union(a, b) => out.push(Elem::Union(unwrap_g(a), unwrap_g(b))),
-            Elem::Group(g) => {
-                let u = unwrap_g(g);
-                if u.len() == 1 { out.extend(u) } else { out.push(Elem::Group(u)) }
-            }
-            Elem::Filter(e) => out.push(Elem::Filter(e.clone())),
-        }
-    }
-    out
-}
-
-fn join_p(a: Plan, b: Plan) -> Plan {
-    match (a, b) {
-        (Plan::Unit, b) => b,
-        (a, Plan::Unit) => a,
-        (a, b) => Plan::Join(Box::new(a), Box::new(b)),
-    }
-}
-
-fn assemble(g: &[Elem]) -> Plan {
-    let mut basic = Plan::Unit;
-    let mut opts = vec![];
-    let mut filters = 0;
-    for e in g {
-        match e {
-            Elem::Triples(ts) => {
-                for t in ts {
-                    basic = join_p(basic, Plan::Scan(t.clone()));
-                }
-            }
-            Elem::Optional(g) => opts.push(assemble(g)),
-            Elem::Union(a, b) => basic = join_p(basic, Plan::Union(Box::new(assemble(a)), Box::new(assemble(b)))),
-            Elem::Group(g) => basic = join_p(basic, assemble(g)),
-            Elem::Filter(_) => filters += 1,
-        }
-    }
-    let mut p = basic;
-    for o in opts {
-        p = match p {
-            Plan::Unit => o,
-            p => Plan::LeftJoin(Box::new(p), Box::new(o)),
-        };
-    }
-    if filters > 0 { Plan::Filter(Box::new(p)) } else { p }
-}
-
-fn trans_code(g: &[Elem]) -> Plan {
-    assemble(&unwrap_g(g))
-}
-
-fn pat_cols(p: &Plan) -> Vec<usize> {
-    match p {
-        Plan::Unit => vec![],
-        Plan::Scan(t) => t.iter().filter_map(|x| if let PT::Var(v) = x { Some(*v) } else { None }).collect(),
-        Plan::Join(a, b) | Plan::LeftJoin(a, b) => {
-            let mut l = pat_cols(a);
-            let r: Vec<usize> = pat_cols(b).into_iter().filter(|v| !l.contains(v)).collect();
-            l.extend(r);
-            l
-        }
-        Plan::Union(a, _) => pat_cols(a),
-        Plan::Filter(a) => pat_cols(a),
-    }
-}
-
-fn ragged_ok(top: bool, p: &Plan) -> bool {
-    match p {
-        Plan::Unit | Plan::Scan(_) => true,
-        Plan::Join(a, b) | Plan::LeftJoin(a, b) => ragged_ok(false, a) && ragged_ok(false, b),
-        Plan::Filter(a) => ragged_ok(top, a),
-        Plan::Union(a, b) => (top || pat_cols(a).len() == pat_cols(b).len()) && ragged_ok(top, a) && ragged_ok(top, b),
-    }
-}
-
-fn top_ragged(p: &Plan) -> bool {
-    match p {
-        Plan::Filter(a) => top_ragged(a),
-        Plan::Union(a, b) => pat_cols(a).len() != pat_cols(b).len() || top_ragged(a) || top_ragged(b),
-        _ => false,
-    }
-}
-
 // ------------------------------------------------------------------ generation
 
 struct Gen {
@@ -867,14 +765,7 @@ impl Gen {
                 6 | 7 => {
                     let a = self.group(depth - 1);
                     // often the same shape with other constants, so that the columns line up
-                    let mut b = if self.r.chance(1, 2) { self.retarget(&a) } else { self.group(depth - 1) };
-                    // below a join the branches must have equally many columns (see the Lean driver)
-                    let (mut va, mut vb) = (vec![], vec![]);
-                    grp_vars(&a, &mut va);
-                    grp_vars(&b, &mut vb);
-                    if va.len() != vb.len() || has_nonlinear(&a) || has_nonlinear(&b) {
-                        b = self.retarget(&a);
-                    }
+                    let b = if self.r.chance(1, 2) { self.retarget(&a) } else { self.group(depth - 1) };
                     g.push(Elem::Union(a, b));
                 }
                 _ => {
@@ -910,25 +801,6 @@ impl Gen {
                 other => other.clone(),
             })
             .collect()
-    }
-    /// every UNION gets a second branch of the same shape as the first (same columns)
-    fn align_unions(&mut self, g: &mut Vec<Elem>) {
-        for e in g.iter_mut() {
-            match e {
-                Elem::Optional(g) | Elem::Group(g) => self.align_unions(g),
-                Elem::Union(a, b) => {
-                    self.align_unions(a);
-                    *b = self.retarget(a);
-                }
-                _ => {}
-            }
-        }
-    }
-    /// keep the line inside the modelled domain
-    fn in_domain(&mut self, g: &mut Vec<Elem>) {
-        if !ragged_ok(true, &trans_code(g)) {
-            self.align_unions(g);
-        }
     }
     /// Give every triple pattern a constant subject or predicate: the scans then read an index
     /// vector (insertion order). A scan of the primary hash set comes in an order that differs
@@ -1079,26 +951,16 @@ pub fn generate(seed: u64, cases: usize, out: &mut Vec<String>) {
             g.bind = vec![None; nv];
             match r.below(100) {
                 0..=59 => {
-                    let mut grp = if r.chance(1, 12) {
-                        // a UNION of branches with different variables as the whole pattern
-                        let (a, b) = (g.group(0), g.group(1));
-                        vec![Elem::Union(a, b)]
-                    } else {
-                        g.group(2)
-                    };
-                    let mut slice = r.chance(1, 3);
+                    let mut grp = g.group(2);
+                    let slice = r.chance(1, 3);
                     if has_optional(&grp) || slice {
                         g.index_ordered(&mut grp);
                     }
-                    g.in_domain(&mut grp);
-                    // a UNION of different widths is the whole pattern: no modifiers then
-                    let ragged = top_ragged(&trans_code(&grp));
-                    slice = slice && !ragged;
                     let mut vars = vec![];
                     grp_vars(&grp, &mut vars);
                     let distinct = r.chance(1, 5);
                     // projection: `*`, a subset of the variables in scope, rarely one out of scope
-                    let proj: Option<Vec<usize>> = if ragged || vars.is_empty() || r.chance(1, 2) {
+                    let proj: Option<Vec<usize>> = if vars.is_empty() || r.chance(1, 2) {
                         None
                     } else {
                         let mut p: Vec<usize> = vars.iter().filter(|_| r.chance(2, 3)).cloned().collect();
@@ -1112,7 +974,7 @@ pub fn generate(seed: u64, cases: usize, out: &mut Vec<String>) {
                     };
                     let visible: Vec<usize> = proj.clone().unwrap_or(vars.clone());
                     // ORDER BY over visible variables; with a slice: over all of them (total keys)
-                    let order: Vec<(usize, bool)> = if ragged || visible.is_empty() || !(r.chance(1, 3) || (slice && r.chance(2, 3))) {
+                    let order: Vec<(usize, bool)> = if visible.is_empty() || !(r.chance(1, 3) || (slice && r.chance(2, 3))) {
                         vec![]
                     } else if slice {
                         let mut ks = visible.clone();
@@ -1149,7 +1011,6 @@ pub fn generate(seed: u64, cases: usize, out: &mut Vec<String>) {
                     if has_optional(&grp) || want_lim {
                         g.index_ordered(&mut grp);
                     }
-                    g.in_domain(&mut grp);
                     let mut vars = vec![];
                     grp_vars(&grp, &mut vars);
                     let alias = nv; // a variable that is not used in the pattern
@@ -1197,8 +1058,7 @@ pub fn generate(seed: u64, cases: usize, out: &mut Vec<String>) {
                             if has_optional(&grp) || has_filter(&grp) {
                                 g.index_ordered(&mut grp);
                             }
-                            g.in_domain(&mut grp);
-                            let mut vars = vec![];
+                                    let mut vars = vec![];
                             grp_vars(&grp, &mut vars);
                             let mut tmpl = |gg: &mut Gen, r: &mut Rng| -> Vec<TP> {
                                 (0..r.range(1, 2))
